@@ -1,6 +1,6 @@
 (* Python str operations on Coq strings: split, join, count, replace, `in`, repetition.
    Everything is structural recursion on the scanned string (a skip counter stands for
-   "jump over the match"), so the functions compute with vm_compute and admit induction. *)
+   "jump over the match"), so the functions compute with vm_compute and are amenable to induction. *)
 From Coq Require Import String Ascii List Bool Arith Lia.
 Import ListNotations.
 Open Scope string_scope.
